@@ -143,6 +143,49 @@ func (w *vWorld) checkStream(start, end []byte, r uint64) {
 	zzverif.Assert(n == len(want), "stream: every qualifying key exactly once")
 }
 
+// checkStreamPerPartition asks the node for its partitions of [start, end) and streams every
+// advertised piece separately, as a partition-aware client does: the concatenation holds every
+// qualifying key exactly once, with the version an unpartitioned read at r returns.
+func (w *vWorld) checkStreamPerPartition(start, end []byte, r uint64) {
+	pr, err := w.b.GetPartitions(vCtx(), &proto.ListPartitionRequest{Key: start, End: end})
+	zzverif.Assert(err == nil, "partitions: no error")
+	zzverif.Assert(len(pr.PartitionKeys) >= 2 && int64(len(pr.PartitionKeys)) == pr.PartitionNum+1, "partitions: n pieces have n+1 borders")
+	if len(pr.PartitionKeys) > 2 {
+		zzverif.Cover("several-advertised-pieces")
+	}
+	want, _ := w.g.List(start, end, r, 0)
+	seen := make([]bool, len(want))
+	n := 0
+	for i := 0; i+1 < len(pr.PartitionKeys); i++ {
+		ch, err := w.b.ListByStream(vCtx(), pr.PartitionKeys[i], pr.PartitionKeys[i+1], r)
+		zzverif.Assert(err == nil, "stream of one advertised piece starts")
+		nterm := 0
+		for resp := range ch {
+			rr := resp.RangeResponse
+			zzverif.Assert(rr != nil && rr.Header != nil, "every streamed message has a header")
+			if !rr.More {
+				nterm++
+				zzverif.Assert(resp.Err == "", "stream terminator carries no error")
+				continue
+			}
+			for _, kv := range rr.Kvs {
+				n++
+				found := false
+				for j := range want {
+					if !seen[j] && bytes.Equal(kv.Key, want[j].Key) {
+						seen[j], found = true, true
+						zzverif.Assert(zzverif.BytesEq(kv.Value, want[j].Val), "per-partition stream: value")
+						zzverif.Assert(kv.Revision == want[j].Rev, "per-partition stream: the version an unpartitioned read returns")
+					}
+				}
+				zzverif.Assert(found, "per-partition streams: every key at most once over all pieces, and only qualifying keys")
+			}
+		}
+		zzverif.Assert(nterm == 1, "each piece's stream ends with exactly one terminator")
+	}
+	zzverif.Assert(n == len(want), "per-partition streams: every qualifying key exactly once")
+}
+
 // VerifC13Partitions: unlimited range read, count and streamed range do not depend on how the
 // engine partitions the key space.
 func VerifC13Partitions() {
@@ -156,15 +199,18 @@ func VerifC13Partitions() {
 	}
 	// the scanned interval: the whole prefix, or one that starts (or ends) exactly on a stored key
 	rg := vRanges[[]int{0, 1, 4}[zzverif.Choose("range", zzverif.Param("ranges", 3))]]
-	switch zzverif.Choose("read", 3) {
+	switch zzverif.Choose("read", 4) {
 	case 0:
 		r := w.readRev("R")
 		w.checkList(rg[0], rg[1], r, 0)
 	case 1:
 		w.checkCount(rg[0], rg[1])
-	default:
+	case 2:
 		r := w.readRev("R")
 		w.checkStream(rg[0], rg[1], r)
+	default:
+		r := w.readRev("R")
+		w.checkStreamPerPartition(rg[0], rg[1], r)
 	}
 	zzverif.Cover("done")
 }
